@@ -833,8 +833,8 @@ func (e *Engine) runWitness(w *Witness, g *Goal) (string, bool) {
 		return out, panicked
 	}
 	if panicked {
-		// a panic is a violation of every functional clause as well
-		return out, true
+		// a panic is a violation of every functional clause as well (not of frame / invariant obligations)
+		return out, g.Kind == "post"
 	}
 	if !strings.Contains(out, "GVC-DONE") {
 		return out, false
